@@ -277,7 +277,8 @@ def build_ops(ctx, exe):
     sm.append("smcw %s 4 164 4 12 0102 0" % KEY)          # already protected: must be refused
     for rdf_len in (0, 1, 2, 100, 123, 124, 125, 126, 127, 128, 252, 253, 254, 255, 256, 300):
         sm.append("smrw %s 144 0 %s" % (KEY, hx(bytes(rng.randrange(256) for _ in range(rdf_len)))))
-    pub = ["pkwrap %s 7a7a 0102030405060708 10000" % ("55" * 32), "pkwrap %s 7a 0102030405060708 10001" % ("55" * 64),
+    pub = ["pkwrap %s 7a7a 0102030405060708 32768" % ("55" * 32), "shwrap %s 7a7a 0102030405060708 40000" % ("03" + "66" * 16),   # 3-octet iter
+           "pkwrap %s 7a7a 0102030405060708 10000" % ("55" * 32), "pkwrap %s 7a 0102030405060708 10001" % ("55" * 64),
            "pkwrap %s 7a7a 0102030405060708 9999" % ("55" * 32), "pkwrap %s 7a7a 0102030405060708 10000" % ("55" * 31),
            "shwrap %s 7a7a 0102030405060708 10000" % ("03" + "66" * 16), "shwrap %s 7a7a 0102030405060708 10000" % ("03" + "66" * 32),
            "shwrap %s 7a7a 0102030405060708 10000" % ("11" + "66" * 16)]
